@@ -1,4 +1,5 @@
 import SJ.Proofs.RawNestedTop
+import SJ.Proofs.RawMap
 /-!
 # C19 — what a `RawValue` holds, stated over the grammar: top level and array elements
 
@@ -194,5 +195,54 @@ example : ∃ cs : List Bytes, TVal.seq [.str [0x31], .str [0x5b, 0x32, 0x5d]] =
 /-- rejected shapes: a trailing comma, a missing separator, bytes after the array -/
 example : rawSeqTop {} [0x5b, 0x31, 0x2c, 0x5d] = .err .TrailingComma 4 := rfl
 example : rawSeqTop {} [0x5b, 0x31, 0x20, 0x32, 0x5d] = .err .ExpectedListCommaOrEnd 4 := rfl
+
+/-! ## object values
+
+`rawMapTop` = `from_*::<M>` for a map type `M` with `String` keys and `Box<RawValue>` values
+(`BTreeMap<String, Box<RawValue>>`; the model returns the entries in source order, duplicates included — what
+the map visitor is handed). A member is `(k, s, c)`: the key's string items, the decoded key, the value's text.
+`MInner` / `MTail` (`SJ/Proofs/RawMap.lean`): `inner = ws` or
+`ws member₁ (ws "," ws memberᵢ)* ws`, `member = strBytes k ws ":" ws c`. -/
+
+open SJ.Proofs.RawMap SJ.Proofs.RawKey in
+/-- **C19 (object values, exactly the values' texts).** `from_*::<map of Box<RawValue>>` succeeds on `bs` with
+    the entries `(sᵢ, cᵢ)` **iff** `bs = w₀ "{" inner "}" w₃` with `MInner inner ms`, every key a well-formed
+    string literal whose escapes pair up and which decodes to `sᵢ` (valid UTF-8 on byte sources: `KeyOK`),
+    and every `cᵢ` one RFC 8259 `value` from its first to its last byte (`Captured`). -/
+theorem c19_nested_capture_map (env : SJ.Model.Typed.Env) (hflt : env.flt = false) (bs : Bytes) (v : TVal) :
+    rawMapTop env bs = .ok v ↔
+    ∃ (ms : List Mem) (w₀ inner w₃ : Bytes), v = .map (ms.map memVal) ∧ bs = w₀ ++ [0x7b] ++ inner ++ [0x7d] ++ w₃ ∧
+      Ws w₀ ∧ Ws w₃ ∧ MInner inner ms ∧ ∀ m ∈ ms, MemOK env m := by
+  constructor
+  · exact rawMapTop_sound env bs v
+  · rintro ⟨ms, w₀, inner, w₃, rfl, rfl, h₀, h₃, hin, hcap⟩
+    exact rawMapTop_complete env hflt ms w₀ inner w₃ h₀ h₃ hin hcap
+
+open SJ.Proofs.RawMap SJ.Proofs.RawKey in
+/-- **C19 (object values, over the grammar).** The entries of a successful capture are the members of an
+    object derivation of the whole input: `JsonText bs (.obj members)` with the keys' items and
+    `Derives cᵢ tᵢ` for the values. -/
+theorem c19_nested_grammar_map (env : SJ.Model.Typed.Env) (bs : Bytes) (v : TVal) (h : rawMapTop env bs = .ok v) :
+    ∃ (ms : List Mem) (ts : List CST), v = .map (ms.map memVal) ∧ AllDerive (ms.map (·.2.2)) ts ∧
+      JsonText bs (.obj ((ms.map (·.1)).zip ts)) ∧ ∀ m ∈ ms, Spec.Denote.decodeItems m.1 = some m.2.1 := by
+  obtain ⟨ms, w₀, inner, w₃, rfl, rfl, h₀, h₃, hin, hcap⟩ := rawMapTop_sound env bs v h
+  have hts : ∀ (ms : List Mem), (∀ m ∈ ms, MemOK env m) → ∃ ts, AllDerive (ms.map (·.2.2)) ts := by
+    intro ms
+    induction ms with
+    | nil => intro _; exact ⟨[], .nil⟩
+    | cons m ms ih =>
+      intro hc
+      obtain ⟨ts, hts⟩ := ih (fun m' hm' => hc m' (by simp [hm']))
+      obtain ⟨t, ht⟩ := (hc m (by simp)).2.1
+      exact ⟨t :: ts, .cons ht hts⟩
+  obtain ⟨ts, hall⟩ := hts ms hcap
+  refine ⟨ms, ts, rfl, hall, ⟨w₀, [0x7b] ++ inner ++ [0x7d], w₃, by simp, h₀, h₃,
+    derives_of_minner inner ms ts hin (fun m hm => (hcap m hm).1.wf) hall⟩, fun m hm => (hcap m hm).1.dec⟩
+
+/-- non-vacuity: ` {"a" : 1 ,"\u0061":[ ]}` — two entries with the same decoded key `a`, in source order -/
+def exObj : Bytes := [0x20, 0x7b, 0x22, 0x61, 0x22, 0x20, 0x3a, 0x20, 0x31, 0x20, 0x2c, 0x22, 0x5c, 0x75, 0x30, 0x30,
+  0x36, 0x31, 0x22, 0x3a, 0x5b, 0x20, 0x5d, 0x7d]
+example : rawMapTop {} exObj = .ok (.map [(.str [0x61], .str [0x31]), (.str [0x61], .str [0x5b, 0x20, 0x5d])]) := rfl
+example : rawMapTop {} [0x7b, 0x22, 0x61, 0x22, 0x3a, 0x31, 0x2c, 0x7d] = .err .TrailingComma 8 := rfl
 
 end SJ.Props.C19
